@@ -26,7 +26,7 @@ class C07(Prop):
     refusal_family = "state"
     trace_module = "TraceStab"
     trace_cfg = "TraceStab.cfg"
-    suite_family = ('stab', ('expect', 'overlap'))
+    suite_family = ('stab', ('expect', 'overlap', 'prob'))
     backends = ("py", "torch")
     chunk = 300
     assumptions = [
